@@ -160,8 +160,9 @@ func (c *Ctx) TLC(opt TLCOpt) *TLCResult {
 					res.Errors = append(res.Errors, l)
 					inErr--
 				}
-				if len(res.Output) < 400 {
-					res.Output = append(res.Output, l)
+				res.Output = append(res.Output, l)
+				if len(res.Output) > 600 { // keep the head and the tail
+					res.Output = append(res.Output[:200], res.Output[201:]...)
 				}
 			}
 		}
